@@ -588,13 +588,14 @@ class Shadow:
             if p is None:
                 cs = self.container_of(xs[0])
                 p = cs[0] if cs else None
+            attach = p is not None and self.kinds[p] != KPIXEL
+            if attach and any(p == x or p in self.reach(x) for x in xs):
+                raise Refused()  # the new group would contain its own parent (the code notices only after moving: F-C10-4)
             n = self._new(KGROUP)
             for x in xs:
                 self._unlist(x)
                 L[n].append(x)
-            if p is not None and self.kinds[p] != KPIXEL:
-                if self._would_cycle(p, n):
-                    raise Refused()  # NB: the spec refuses before anything moved; see F-C10-4
+            if attach:
                 L[p].append(n)
             return [n]
         if k == "Append":
@@ -758,28 +759,54 @@ def parse_listlist(s):
 _variant = None
 
 
-def clip_variant():
-    """which clipping_layer setter the tree under test has (see Edit.Model.clipfix)"""
+def code_variant():
+    """which code variant the tree under test is (see Edit.Model.cfg): (clipfix, selffix, descfix, clipsfix, cachefix)"""
     global _variant
     if _variant is None:
         from PIL import Image
         from psd_tools import PSDImage
-        from psd_tools.api.layers import PixelLayer
+        from psd_tools.api.layers import Group, PixelLayer
 
         quiet()
+        im = Image.new("RGB", (1, 1))
         d = PSDImage.new("RGB", (2, 2))
-        l = PixelLayer.frompil(Image.new("RGB", (1, 1)), d, "probe")
+        l = PixelLayer.frompil(im, d, "probe")
         l.clipping_layer = True
-        _variant = bool(l.clipping_layer)
+        clipfix = bool(l.clipping_layer)
+        g = Group.new("probe")
+        try:
+            g.extend([g])
+            selffix = False
+        except AssertionError:
+            selffix = True
+        except RecursionError:
+            selffix = False
+        d2 = PSDImage.new("RGB", (2, 2))
+        a, b = PixelLayer.frompil(im, d2, "a"), PixelLayer.frompil(im, d2, "b")
+        d2.append(a)
+        d2.append(b)
+        b.clipping_layer = True
+        descfix = len(list(d2.descendants())) == 2
+        d2.remove(b)
+        clipsfix = len(a._clip_layers) == 0
+        g2 = Group.new("probe2", parent=d2)
+        _ = g2.bbox
+        g2.append(b)
+        cachefix = g2.__dict__.get("_bbox") is None
+        _variant = (clipfix, selffix, descfix, clipsfix, cachefix)
     return _variant
 
 
+def cfg_lit():
+    return "(mkCfg %s %s %s %s %s)" % tuple("true" if v else "false" for v in code_variant())
+
+
 def digest_fn():
-    return "run_digest_v %s" % ("true" if clip_variant() else "false")
+    return "run_digest_v %s" % cfg_lit()
 
 
 def model_full(ck, case, tag="dbg"):
-    out = ck.coq_eval("full_%s" % tag, "Eval vm_compute in (run_full_v %s %s).\n" % ("true" if clip_variant() else "false", case_lit(case)),
+    out = ck.coq_eval("full_%s" % tag, "Eval vm_compute in (run_full_v %s %s).\n" % (cfg_lit(), case_lit(case)),
                       ["Base.Prelude", "Edit.Model", "Edit.Corr"])
     return parse_listlist(out)
 
